@@ -434,9 +434,11 @@ func runKeyCrypt(c *hx.Ctx) {
 			keyLen = []int{0, 1, 31, 32, 33, 63, 64, 65}[c.Intn(8)]
 		}
 		key := c.RandBytes(keyLen)
+		// encrypting passphrases: random bytes, and in turn ones that end in a line ending, start with a blank, are
+		// empty, or hold a character with two Unicode normal forms
 		pass := c.RandBytes(c.Intn(20))
-		if i%5 == 4 {
-			pass = []byte("correct horse battery staple")
+		if fixed := kcPassphrases[i%len(kcPassphrases)]; fixed != nil {
+			pass = []byte(*fixed)
 		}
 		mem, par, it := uint32(8+c.Intn(24)), uint8(1+c.Intn(3)), uint32(1+c.Intn(2))
 		if i < 2 {
@@ -468,19 +470,8 @@ func runKeyCrypt(c *hx.Ctx) {
 		addFields := func(label string, f kcFields) { addBody(label, nil, nil, kcEncode(f)) }
 		// the output itself, and other passphrases
 		trials = append(trials, kcTrial{label: "same", pemOK: true, body: body0, text: out})
-		for _, p := range [][]byte{{}, append(append([]byte{}, pass...), 0), append(append([]byte{}, pass...), ' '), bytes.ToUpper(pass), c.RandBytes(1 + c.Intn(12))} {
-			if !bytes.Equal(p, pass) {
-				if p == nil {
-					p = []byte{}
-				}
-				addBody("pass", p, nil, body0)
-			}
-		}
-		if len(pass) > 0 {
-			addBody("pass", pass[:len(pass)-1], nil, body0)
-			q := append([]byte{}, pass...)
-			q[c.Intn(len(q))] ^= 1 << uint(c.Intn(8))
-			addBody("pass", q, nil, body0)
+		for _, p := range kcNearMisses(c, pass) {
+			addBody("pass", p, nil, body0)
 		}
 		// every banner
 		for _, b := range kcBanners {
@@ -751,7 +742,7 @@ func runKeyCrypt(c *hx.Ctx) {
 	cw.Meta("skipped_expensive_trials", skipped)
 	cw.Close("exhaustive: 4 unmarshal functions x 14 banners x key lengths {0,1,31,32,33,63..66,70}; 4 marshal functions x 3 curves; " +
 		"then per encrypted container (both curves alternating, random key/passphrase, Argon2 memory 8..31 KiB, 1..3 lanes, 1..2 passes; every 4th and 20% of the others with a key of a wrong length): " +
-		"the output itself, 5-7 other passphrases, every other banner, ~55 per-field alterations, ~15 re-encodings that keep every field, " +
+		"the output itself, 20-35 near-miss passphrases (blanks / line endings / NUL added or removed at either end, one letter's case, one byte more or less, bit flip, NFC vs NFD, empty, unrelated; encrypting passphrases in turn random, ending in a line ending, starting with a blank, empty, with both Unicode normal forms), every other banner, ~55 per-field alterations, ~15 re-encodings that keep every field, " +
 		"every byte position of the protobuf body x 2 values, every byte position of the PEM text, 12 deletions/insertions/truncations; " +
 		"trials whose (unauthenticated) Argon2 parameters would cost > 32 MiB or > 64 passes are not run (counted in skipped_expensive_trials); " +
 		"non-trivial = accepted unmarshal / produced marshal / container with a key of the curve's length; distinct by literal")
@@ -765,6 +756,61 @@ func kcDecrypt(pass, text []byte) (curve cert.Curve, key []byte, err error, pani
 	}()
 	curve, key, _, err = cert.DecryptAndUnmarshalSigningPrivateKey(pass, text)
 	return
+}
+
+func kcStr(s string) *string { return &s }
+
+// nil = random bytes
+var kcPassphrases = []*string{kcStr("pw\n"), kcStr("pw"), kcStr("caf\u00e9 Pass"), nil, kcStr("correct horse battery staple\r\n"),
+	kcStr(""), kcStr(" pw"), nil, kcStr("cafe\u0301 Pass"), kcStr("\n"), kcStr("pw\t"), nil, kcStr("PW\r"), nil}
+
+// kcNearMisses: passphrases that differ from the right one only slightly (blanks and line endings added or removed at
+// either end, one letter's case, one byte more or less, the other Unicode normal form of a character), plus a few
+// unrelated ones. None equals the right one.
+func kcNearMisses(c *hx.Ctx, pass []byte) [][]byte {
+	cat := func(parts ...[]byte) []byte {
+		out := []byte{}
+		for _, p := range parts {
+			out = append(out, p...)
+		}
+		return out
+	}
+	var out [][]byte
+	for _, ws := range []string{"\n", "\r\n", "\r", " ", "\t", "\x00", "\n\n"} {
+		out = append(out, cat(pass, []byte(ws)), cat([]byte(ws), pass))
+	}
+	out = append(out, bytes.TrimRight(pass, "\r\n"), bytes.TrimRight(pass, "\n"), bytes.TrimSpace(pass), bytes.TrimLeft(pass, " \t"),
+		bytes.TrimRight(pass, " \t\r\n\x00"), bytes.ToUpper(pass), bytes.ToLower(pass), []byte{}, []byte("\n"))
+	if len(pass) > 0 {
+		out = append(out, pass[:len(pass)-1], pass[1:])
+		q := append([]byte{}, pass...)
+		q[c.Intn(len(q))] ^= 1 << uint(c.Intn(8))
+		out = append(out, q)
+		for k := 0; k < 3; k++ { // one letter's case flipped
+			q := append([]byte{}, pass...)
+			p := c.Intn(len(q))
+			if q[p] >= 'a' && q[p] <= 'z' || q[p] >= 'A' && q[p] <= 'Z' {
+				q[p] ^= 0x20
+				out = append(out, q)
+			}
+		}
+	}
+	out = append(out, cat(pass, []byte{byte(c.Intn(256))}), cat([]byte{byte(c.Intn(256))}, pass))
+	// Unicode normal forms: e-acute as one code point (NFC) or as e + combining acute (NFD)
+	nfc, nfd := []byte("\u00e9"), []byte("e\u0301")
+	out = append(out, bytes.ReplaceAll(pass, nfc, nfd), bytes.ReplaceAll(pass, nfd, nfc))
+	out = append(out, c.RandBytes(1+c.Intn(12)))
+	var uniq [][]byte
+	for _, p := range out {
+		dup := bytes.Equal(p, pass)
+		for _, u := range uniq {
+			dup = dup || bytes.Equal(u, p)
+		}
+		if !dup {
+			uniq = append(uniq, append([]byte{}, p...))
+		}
+	}
+	return uniq
 }
 
 func kcOptStr(s *string) string {
